@@ -72,6 +72,31 @@ def short(x, n=1500):
     return s[:n] + "...(truncated)"
 
 
+def snapshot(obj):
+    """Canonical, comparable picture of an input object (used to assert that a call did not modify its inputs)."""
+    try:
+        import numpy as np
+        import xarray as xr
+    except Exception:  # pragma: no cover
+        np = xr = None
+    from pydantic import BaseModel
+
+    if isinstance(obj, BaseModel):
+        return ("model", type(obj).__name__, obj.model_dump_json())
+    if xr is not None and isinstance(obj, xr.DataArray):
+        return (
+            "xr", obj.dims, obj.dtype.str, obj.values.tobytes(), repr(sorted(obj.attrs.items(), key=str)),
+            tuple((k, obj.coords[k].values.tobytes(), repr(sorted(obj.coords[k].attrs.items(), key=str))) for k in sorted(map(str, obj.coords))),
+        )
+    if np is not None and isinstance(obj, np.ndarray):
+        return ("np", obj.dtype.str, obj.shape, obj.tobytes())
+    if isinstance(obj, dict):
+        return ("dict", tuple((repr(k), snapshot(v)) for k, v in obj.items()))
+    if isinstance(obj, (list, tuple)):
+        return (type(obj).__name__, tuple(snapshot(v) for v in obj))
+    return ("repr", repr(obj))
+
+
 class Ctx:
     """Per-shard counters.  Check functions call ctx.case(...) once per generated case and
     ctx.fail(...) when the oracle disagrees with the code."""
@@ -134,6 +159,11 @@ class Ctx:
         except Exception as e:  # noqa: BLE001 - the contract here is 'must not raise'
             self.fail(f"{what} raised {type(e).__name__}: {str(e)[:200]}", spec, repr(e)[:300], "a result", kind="raised")
             raise KnownSkip()
+
+    def unchanged(self, spec, what, before, obj):
+        """Assert that `obj` still looks like its earlier snapshot `before` (inputs must not be modified)."""
+        if snapshot(obj) != before:
+            self.fail(f"{what} was modified by the call (inputs must be left untouched)", spec, None, None, kind="input_mutated")
 
     def result(self):
         return {
